@@ -20,11 +20,12 @@ ASSUMPTIONS = ["only name, type, size, nullable, default and column count/order 
 
 TYPES = [("int", "int", None), ("varchar(20)", "varchar", 20), ("decimal(10,2)", "decimal", [10, 2]), ("decimal(10, 2)", "decimal", [10, 2]),
          ("double precision", "double precision", None), ("character varying(20)", "character varying", 20), ("timestamp", "timestamp", None),
-         ("numeric(5)", "numeric", 5)]
+         ("numeric(5)", "numeric", 5), ("decimal(10,2) unsigned", "decimal unsigned", [10, 2]), ("int(11) unsigned", "int unsigned", 11),
+         ("float(7,3) unsigned zerofill", "float unsigned zerofill", [7, 3])]
 DEFAULTS = ["0", "7", "1234", "12345678901234567890", "'a'", "''", "'A b C'", "NULL", "TRUE", "now()", "CURRENT_TIMESTAMP", "1.5", "-1", "0.50", "10.25", "'0'"]
 OPTS = ["NN", "NULL", "DEF", "PK", "UQ", "REF"]
 CONTRA = [{"NN", "NULL"}, {"NULL", "PK"}]
-REFS = ["REFERENCES o(x)", "REFERENCES o (x)", "REFERENCES s9.o(x)"]
+REFS = ["REFERENCES o(x)", "REFERENCES o (x)", "REFERENCES s9.o(x)", "REFERENCES o(key)", "REFERENCES orders (order)", "REFERENCES o(comment)"]
 
 
 def dval(v):
@@ -83,7 +84,7 @@ def gen_cases(tier):
                 for di in (4, 6, 7, 9, 12):
                     cases.append({"fam": "A", "opts": list(sel), "type": 0, "default": di, "ref": 0, "pos": 1})
             if "REF" in sel and (k <= 2 or tier == "thorough"):
-                for ri in (1, 2):
+                for ri in range(1, len(REFS)):
                     cases.append({"fam": "A", "opts": list(sel), "type": 0, "default": 1, "ref": ri, "pos": 1})
             if k <= 2 or tier == "thorough":
                 for pos in (0, 2):
@@ -97,6 +98,11 @@ def gen_cases(tier):
             lays = ["line"] if n >= 3 else list(LAYOUTS)
             for lay in lays:
                 cases.append({"fam": "B", "shapes": list(shp), "layout": lay})
+    # family D: two columns whose names differ only by letter case or quoting, one of them carrying the option under test
+    for opts in (["PK"], ["NN"], ["UQ"], ["DEF"], ["PK", "DEF"], ["NN", "UQ"]):
+        for sib in ('"Code"', "CODE", "`code`", "[code]", "Code"):
+            for first in (0, 1):
+                cases.append({"fam": "D", "opts": opts, "sib": sib, "first": first})
     # family C
     for n in (1, 2, 3):
         for tabs in itertools.product(range(len(TABS)), repeat=n):
@@ -116,6 +122,14 @@ def table_text(name, coltexts, layout):
 
 def build(case):
     """-> (ddl, [(schema, table, [expected column dicts])])"""
+    if case["fam"] == "D":
+        a = "code char(3) " + render_opts(case["opts"])
+        b = case["sib"] + " varchar(10) NULL"
+        ea = expect_col("code", ("char(3)", "char", 3), case["opts"])
+        eb = dict(name=case["sib"], type="varchar", size=10, nullable=True, default=None)
+        cols, exp = ([a, b], [ea, eb]) if case["first"] == 0 else ([b, a], [eb, ea])
+        return "CREATE TABLE t (k int, " + ", ".join(cols) + ", z int);", [(None, "t", [dict(name="k", type="int", size=None, nullable=True, default=None)] + exp
+                                                                                + [dict(name="z", type="int", size=None, nullable=True, default=None)])]
     if case["fam"] == "A":
         ty = TYPES[case["type"]]
         d = DEFAULTS[case["default"]]
